@@ -244,7 +244,8 @@ CLAIMED["C08"] = dict(
 CLAIMED["C09"] = dict(
     text="The IO part of StlSem.tla gives the state an input and an output bit stream and one action per documented macro: hex.input_hex/input/"
          "input_as_hex/input_dec_uint(_until)/input_dec_int(_until), hex.output/print/print_as_digit/print_uint/print_int/print_dec_uint/print_dec_int, "
-         "bit.input_bit/input, bit.output/print/print_as_digit/print_hex_uint/print_hex_int/print_dec_uint/print_dec_int, stl.bit2hex/hex2bit. The arena "
+         "bit.input_bit/input, bit.output/print/print_as_digit/print_hex_uint/print_hex_int/print_dec_uint/print_dec_int/print_str, stl.bit2hex/hex2bit, "
+         "the ASCII casts bit.bin2ascii/dec2ascii/hex2ascii/ascii2bin/ascii2dec/ascii2hex. The arena "
          "device serves each step's input bits and collects the bits the macro under test writes (marker bits are told apart by a flag cell); TLC "
          "(Trace_Stl) prescribes per step the variables, the branch (error branches included), the exact output bits and the number of input bits "
          "consumed. Inputs: numerals at every boundary (0, powers of ten, 16^n +-1, most negative), an invalid byte at every position, empty input, missing "
